@@ -24,6 +24,28 @@ CASES = [
       "            code = self.report.submission.files[filename]\n", "            code = self.report.submission.files[filename].strip()\n"),
     m('result-is-another-variable', 'R3', '_handle_result[',
       "            self.result = self.data[target]\n", "            self.result = list(self.data.values())[-1]\n"),
+    m('future-import-in-the-sandbox-module', 'R1', 'compile-inherits-future',
+      "import sys\nimport io\nimport types\n", "from __future__ import annotations\nimport sys\nimport io\nimport types\n"),
+    m('compile-given-flags', 'R1', 'compile-flags',
+      "            compiled_code = compile(code, filename, 'exec')", "            compiled_code = compile(code, filename, 'exec', 0x1000000)"),
+    m('capture-buffer-translates-newlines', 'R5', 'buffer-keeps-text-verbatim',
+      "            captured_stdout = io.StringIO()", "            captured_stdout = io.StringIO(newline=None)"),
+    m('capture-buffer-starts-with-text', 'R5', 'buffer-keeps-text-verbatim',
+      "            captured_stdout = io.StringIO()", "            captured_stdout = io.StringIO('> ')"),
+    dict(name='twin-argument-text-cached-but-rechecked', kind='twin', edits=[
+        dict(file=SB, old="        self._backup_variables = {}\n", new="        self._backup_variables = {}\n        self._texts = {}\n"),
+        dict(file=SB, old="        if len(repr(value)) <= self.MAXIMUM_TEMPORARY_LENGTH and _is_faithful_literal(repr(value), value):\n            return repr(value)\n",
+             new="        if id(value) not in self._texts:\n            self._texts[id(value)] = (value, repr(value))\n        text = self._texts[id(value)][1]\n        if len(text) <= self.MAXIMUM_TEMPORARY_LENGTH and _is_faithful_literal(text, value):\n            return text\n")]),
+    dict(name='twin-future-import-with-dont_inherit', kind='twin', edits=[
+        dict(file=SB, old="import sys\nimport io\nimport types\n", new="from __future__ import annotations\nimport sys\nimport io\nimport types\n"),
+        dict(file=SB, old="            compiled_code = compile(code, filename, 'exec')", new="            compiled_code = compile(code, filename, 'exec', dont_inherit=True)"),
+        dict(file=SB, old="        compiled_code = compile(code, filename, 'exec')\n        with self.trace.as_filename(filename, code):\n            exec(compiled_code, imported_module_data)", new="        compiled_code = compile(code, filename, 'exec', 0, True)\n        with self.trace.as_filename(filename, code):\n            exec(compiled_code, imported_module_data)")]),
+    dict(name='twin-mandatory-future-import', kind='twin', edits=[
+        dict(file=SB, old="import sys\nimport io\nimport types\n", new="from __future__ import print_function, division\nimport sys\nimport io\nimport types\n")]),
+    dict(name='twin-capture-buffer-explicit-newline', kind='twin', edits=[dict(file=SB,
+         old="            captured_stdout = io.StringIO()", new="            captured_stdout = io.StringIO(newline='\\n')")]),
+    dict(name='twin-printing-buffer-given-console', kind='twin', edits=[dict(file=SB,
+         old="            captured_stdout = PrintingStringIO()", new="            captured_stdout = PrintingStringIO(None, '', newline='')")]),
     dict(name='twin-compile-with-keywords', kind='twin', edits=[dict(file=SB,
          old="            compiled_code = compile(code, filename, 'exec')",
          new="            compiled_code = compile(code, filename=filename, mode='exec')")]),
